@@ -1,12 +1,24 @@
-use autosar_data_specification::*;
-fn main() {
-    let walk = vh::specwalk::SpecWalk::new();
-    for info in &walk.types {
-        let t = info.etype;
-        if t.is_named() && matches!(t.content_mode(), ContentMode::Mixed | ContentMode::Bag) {
-            let p = walk.path_to(t);
-            let vers: Vec<_> = vh::specwalk::ALL_VERSIONS.iter().filter(|v| t.is_named_in_version(**v)).map(|v| v.filename()).collect();
-            println!("{:?} {} named in {:?}", t.content_mode(), p.iter().map(|(_, n, _)| n.to_string()).collect::<Vec<_>>().join("/"), vers);
-        }
+use autosar_data::*;
+fn build(order: &[&str]) -> String {
+    let model = AutosarModel::new();
+    model.create_file("a.arxml", AutosarVersion::Autosar_00050).unwrap();
+    let conns = model.root_element()
+        .create_sub_element(ElementName::ArPackages).unwrap()
+        .create_named_sub_element(ElementName::ArPackage, "p").unwrap()
+        .create_sub_element(ElementName::Elements).unwrap()
+        .create_named_sub_element(ElementName::CanTpConfig, "c").unwrap()
+        .create_sub_element(ElementName::TpConnections).unwrap();
+    for v in order {
+        let c = conns.create_sub_element(ElementName::CanTpConnection).unwrap();
+        let t = c.create_sub_element(ElementName::TimeoutBr).unwrap();
+        t.set_character_data(v.parse::<f64>().unwrap()).unwrap();
     }
+    model.sort();
+    conns.sub_elements().map(|c| c.get_sub_element(ElementName::TimeoutBr).unwrap().character_data().unwrap().to_string()).collect::<Vec<_>>().join(",")
+}
+fn main() {
+    println!("{}", build(&["2", "NaN", "1"]));
+    println!("{}", build(&["1", "NaN", "2"]));
+    println!("{}", build(&["NaN", "2", "1"]));
+    println!("{}", build(&["2", "1", "NaN"]));
 }
